@@ -255,6 +255,27 @@ def check_c09(pid, tier, seed, rep):
         rep.violation("corrS-%d" % r["id"], dict(correspondence="accept/reject verdict of coq/CorrS.v:umodel differs from the generator",
                                                    first_case=dict(pkg=r["pkg"], injector=r["name"], why=why, model_input=S["case_text"].get(str(r["id"])))),
                       "model verdict differs from the generator on %d declaration(s)" % len(bad), True)
+    # directed packages of the naming stage that must be refused (duplicates the type strings do not show: aliases)
+    import stage_n
+    N = stage_n.stage(seed, tier)
+    ndir = 0
+    for r in N["records"]:
+        want = r["meta"].get("expect_refused")
+        if not want:
+            continue
+        ndir += 1
+        probs = []
+        if r["gen_rc"] != 1:
+            probs.append("exit status %s, expected a refusal (1)" % r["gen_rc"])
+        elif want not in r["gen_err"]:
+            probs.append("refused without the expected diagnostic %r: %s" % (want, r["gen_err"][-200:]))
+        if os.path.exists(os.path.join(N["srcdir"], r["dir"], "k_band.go")):
+            probs.append("output file was created although the declaration must be refused")
+        if probs:
+            nviol += 1
+            rep.violation("directed-%s" % r["name"], dict(package_dir=os.path.join(N["srcdir"], r["dir"]), kind=r["meta"]["kind"], problems=probs, how="cd <package_dir> && kessoku k.go"),
+                          "%s (%s): %s" % (r["name"], r["meta"]["kind"], probs[0][:300]))
+    cov["directed_refusals"] = ndir
     cov.update(input_distribution=dict(kinds=kinds, **shape_stats(S)), samples=samples or [dict(note="no malformed sample")], trusted_base=TRUSTED)
     return cov
 
@@ -325,8 +346,8 @@ def check_c10(pid, tier, seed, rep):
                                   "%s: the generator neither accepted nor refused the declaration (exit %s)" % (r["name"], r["gen_rc"]))
                 continue
             for fn, want in funcs.items():
-                m = re.search(r"^func %s\((.*?)\) " % re.escape(fn), txt, re.M)
-                got = [x.split(" ", 1)[1] for x in m.group(1).split(", ")] if m and m.group(1) else []
+                m = re.search(r"^func %s\((.*?)\) [^\n]*\{$" % re.escape(fn), txt, re.M | re.S)
+                got = [re.sub(r"\s+", " ", x).split(" ", 1)[1] for x in m.group(1).split(", ")] if m and m.group(1) else []
                 if m and got == want:
                     continue
                 known = (r["meta"].get("known_params") or {}).get(band, {}).get(fn)
